@@ -554,16 +554,19 @@ var solvers = []Solver{
 		return []string{"cvc5", "--incremental", fmt.Sprintf("--tlimit=%d", t*1000), f}
 	}, "(set-logic ALL)\n"},
 	{"z3-4.8", func(f string, t int) []string { return []string{"z3", fmt.Sprintf("-T:%d", t), f} }, ""},
+	{"z3-5.1/sat-euf", func(f string, t int) []string {
+		return []string{"z3-new", "sat.euf=true", "tactic.default_tactic=sat", fmt.Sprintf("-T:%d", t), f}
+	}, ""},
 }
 
 var workDir string
 var fileSeq int
 var fileMu sync.Mutex
 
-func runSolver(s Solver, query string, timeout int) (status string, out string, secs float64) {
+func runSolver(ctx context.Context, s Solver, query string, timeout int) (status string, out string, secs float64) {
 	fileMu.Lock()
 	fileSeq++
-	fn := filepath.Join(workDir, fmt.Sprintf("q%d_%s.smt2", fileSeq, s.Name))
+	fn := filepath.Join(workDir, fmt.Sprintf("q%d_%s.smt2", fileSeq, strings.ReplaceAll(s.Name, "/", "_")))
 	fileMu.Unlock()
 	txt := query
 	if s.Pre != "" {
@@ -576,10 +579,10 @@ func runSolver(s Solver, query string, timeout int) (status string, out string, 
 	}
 	os.WriteFile(fn, []byte(txt), 0644)
 	defer os.Remove(fn)
-	ctx, cancel := context.WithTimeout(context.Background(), time.Duration(timeout+5)*time.Second)
+	cctx, cancel := context.WithTimeout(ctx, time.Duration(timeout+5)*time.Second)
 	defer cancel()
 	args := s.Cmd(fn, timeout)
-	cmd := exec.CommandContext(ctx, args[0], args[1:]...)
+	cmd := exec.CommandContext(cctx, args[0], args[1:]...)
 	var buf bytes.Buffer
 	cmd.Stdout = &buf
 	cmd.Stderr = &buf
@@ -594,7 +597,7 @@ func runSolver(s Solver, query string, timeout int) (status string, out string, 
 	case "timeout":
 		status = "timeout"
 	default:
-		if ctx.Err() != nil || strings.Contains(out, "timeout") || strings.Contains(out, "interrupted") {
+		if cctx.Err() != nil || strings.Contains(out, "timeout") || strings.Contains(out, "interrupted") {
 			status = "timeout"
 		} else {
 			status = "error"
@@ -603,35 +606,45 @@ func runSolver(s Solver, query string, timeout int) (status string, out string, 
 	return
 }
 
-// solveQuery runs the portfolio on one query text.
+var stage1Timeout = 6
+
+// solveQuery runs the portfolio on one query text: first the primary solver with a short
+// budget, then all back ends race with the full timeout (first decisive answer wins).
 func solveQuery(query string, timeout int, both bool) *SolveResult {
-	st, out, secs := runSolver(solvers[0], query, timeout)
+	t1 := stage1Timeout
+	if t1 > timeout {
+		t1 = timeout
+	}
+	st, out, secs := runSolver(context.Background(), solvers[0], query, t1)
 	res := &SolveResult{Status: st, Solver: solvers[0].Name, Seconds: secs, Output: out, Queries: 1}
 	if st == "unsat" || st == "sat" {
 		return res
 	}
-	// fall back to the other solvers in parallel
 	type r struct {
 		st, out string
 		secs    float64
 		name    string
 	}
-	ch := make(chan r, 2)
-	for _, s := range solvers[1:] {
+	ctx, cancel := context.WithCancel(context.Background())
+	defer cancel()
+	ch := make(chan r, len(solvers))
+	for _, s := range solvers {
 		s := s
 		go func() {
-			a, b, c := runSolver(s, query, timeout)
+			a, b, c := runSolver(ctx, s, query, timeout)
 			ch <- r{a, b, c, s.Name}
 		}()
 	}
-	for k := 0; k < 2; k++ {
+	res.Output = ""
+	for k := 0; k < len(solvers); k++ {
 		x := <-ch
 		res.Seconds += x.secs
 		if x.st == "unsat" || x.st == "sat" {
 			res.Status, res.Solver, res.Output = x.st, x.name, x.out
 			return res
 		}
-		res.Output += "\n[" + x.name + "] " + x.st + ": " + firstLines(x.out, 3)
+		res.Status = x.st
+		res.Output += "[" + x.name + "] " + x.st + ": " + firstLines(x.out, 2) + "\n"
 	}
 	return res
 }
